@@ -89,7 +89,8 @@ ADDENDA = {
   "C01": " Size classes are chosen for the ENCODED size (508..510 value bytes straddle the 512-byte pool seed; one scenario per encoded size 503..518).",
   "C02": " Error metadata may hold the protocol's own keys and HTTP-level keys of another response (Content-Length, Content-Encoding, Content-Type: an error passed on by a proxy); they are the library's to set.",
   "C04": " Also: HTTP/2 stream resets as transport errors; a response writer that refuses a single Write; the handler's view of a request stream whose client failed without closing it.",
-  "C07": " Compression names in another letter case are unknown or gzip, never half-known; an accept-encoding header says nothing about the request's own messages; an empty JSON body is not a message.",
+  "C12": " Also: the Spec of streaming calls as client interceptors, handler interceptors and user code see it; handlers constructed with procedure strings of every shape; a codec whose name has a +suffix of its own.",
+  "C07": " The compressed flag on a payload that is not compressed. Compression names in another letter case are unknown or gzip, never half-known; an accept-encoding header says nothing about the request's own messages; an empty JSON body is not a message.",
   "C11": " The codec refusing a response message after the handler set its metadata; metadata under its own carrier is exact (nothing added to a key the program set), also when Receive is asked again after the end; ResponseHeader read before the first Receive.",
   "C13": " A metadata-less sentinel error returned by shared handlers keeps its nil metadata map; the receiving goroutine may be inside Receive before the sender sets its headers and sends.",
   "C14": " Also: HTTPClient.Do returning a response after the context ended (that body is closed too); a Receive that fails for a reason of its own while the handler waits for the client returns at once.",
